@@ -23,6 +23,7 @@ from sa.pyfront import Program
 from sa.symex import Interp
 
 RULES = {
+    "R-C05-g": "the index methods the cubes read a dimension through (slices1d, sliced, items, get, common_rowids, copy) write nothing on the index (imported from the C17 frame analysis): a memo kept on the index survives an in-place shift_common and feeds the old entry set to the next cube",
     "R-C05-f": "every near-zero test that decides 'this differenced counter is zero' (adjust_zeros' default, ffunc_count/xfunc_count.reduce) uses isclose(x, 0) with NumPy's default absolute tolerance, as documented - not a narrower one",
     "R-C05-e": "every index-cube grand total is the all-rows instance of its per-cell value (per fact column), so the cell reconstructed at the common coordinate does not depend on which category is common",
     "R-C05-a": "differencing writes at dim.common of the dimension whose axis is being differenced",
@@ -184,6 +185,16 @@ def main(tier):
     for rule, status, where, cons, detail, wit in C.items:
         rep.add(rule, where, cons, status, detail, True, wit)
     rep.floor("R-C05-e", 30, n)
+    import c17
+    st17 = {"events": 0, "mods": 0, "diagnostic": {}, "exceptions": {}, "regions": 0, "shortcuts": 0}
+    k17 = 0
+    ii17 = prog.cls("iindexes", "iindex")
+    for n17 in ("slices1d", "sliced", "items", "get", "common_rowids", "copy", "to_dict", "abscissae"):
+        f17 = ii17.methods.get(n17)
+        if f17 is not None:
+            c17.analyse_root(prog, f17, "pure", rep, st17, RA="R-C05-g", RB="R-C05-g", extra=False)
+            k17 += 1
+    rep.floor("R-C05-g", 5, k17)
     return rep.finish()
 
 
